@@ -1,6 +1,6 @@
 (* PV.C13.Examples — non-vacuity: concrete non-trivial inputs meeting the hypotheses of the theorems. *)
 From Coq Require Import QArith ZArith NArith List Bool PArith Arith.
-From PV Require Import Base.PyData C13.Model C13.Spec C13.Refuted.
+From PV Require Import Base.PyData C13.Model C13.Spec C13.Refuted C13.Time C13.Pk.
 Import ListNotations.
 Local Open Scope nat_scope.
 
@@ -151,3 +151,23 @@ Example write_read_cycle_filtered_example :
   filters_identity (mkInput (csv_text pr_toy (i_mdt stale_old) hdr rows) (i_options stale_old) (Some [c_at]) None
                             [] (i_accept stale_old) (i_mdt stale_old)) = false.
 Proof. cbv zeta. split; [eexists; split; [vm_compute; reflexivity|split; vm_compute; reflexivity]|]. repeat split; vm_compute; reflexivity. Qed.
+
+(* ---- TIME / DATE translation --------------------------------------------------------------------------------- *)
+(* DAT1 = day-month-year with two-digit years across the leap day 2000-02-29 and a year end *)
+Example translated_time_example :
+  let c := tw (Some s_DAT1) [(1#1, s_of [49;50;58;49;48], s_of [50;56;45;50;45;48;48]);        (* 12:10  28-2-00 *)
+                             (1#1, s_of [49;51;58;52;48], s_of [49;45;51;45;48;48]);           (* 13:40  1-3-00  *)
+                             (2#1, s_of [50;51;58;51;48], s_of [51;49;45;49;50;45;57;57]);     (* 23:30  31-12-99 *)
+                             (2#1, s_of [48;46;53], s_of [49;45;49;45;48;48])] in              (* 0.5    1-1-00  *)
+  g_three_parts c = true /\ g_has_date c = true /\ g_no_daynum c = true /\ model_vs_spec c = true /\
+  tres_agree (translate_model (t_datecol c) (t_ids c) (t_times c) (t_dates c)) (Ok [CNum 0; CNum (99#2); CNum 0; CNum (1#1)]) = true.
+Proof. cbv zeta. repeat split; vm_compute; reflexivity. Qed.
+Example days_apart_example : days_apart (2000, 2, 28)%Z (2000, 3, 1)%Z 2 /\ valid3 (2000, 2, 28)%Z = true.
+Proof. split; [|reflexivity]. change (2000, 3, 1)%Z with (next_day (next_day (2000, 2, 28)%Z)). change 2%Z with (0 + 1 + 1)%Z. repeat constructor. Qed.
+
+(* ---- $PK: individual 2 has no observation (MDV = 1 only) and is removed; individual 1 keeps its dose record *)
+Example filter_observations_example :
+  let t := [(s_ID, [CNum 1; CNum 1; CNum (2#1); CNum (3#1)]); (s_MDV, [CNum 1; CNum 0; CNum 1; CNum 0]); (s_DV, [CNum 0; CNum (5#1); CNum 0; CNum (7#1)])] in
+  obs_label [s_ID; s_MDV; s_DV] [] = Some s_MDV /\
+  filter_obs s_MDV t = Ok [(s_ID, [CNum 1; CNum 1; CNum (3#1)]); (s_MDV, [CNum 1; CNum 0; CNum 0]); (s_DV, [CNum 0; CNum (5#1); CNum (7#1)])].
+Proof. split; vm_compute; reflexivity. Qed.
